@@ -159,13 +159,13 @@ func presenceLossKind(r *scheduling.Requirement, d ref.Set) string {
 // ---------------------------------------------------------------------------------------------------------------------
 
 type c12aScenario struct {
-	Key        string     `json:"key"`
-	A          []ref.Prim `json:"a"`
-	B          []ref.Prim `json:"b"`
-	C          []ref.Prim `json:"c"`
-	MinA       *int       `json:"minA,omitempty"`
-	MinB       *int       `json:"minB,omitempty"`
-	NegBounds  bool       `json:"negBounds"`
+	Key       string     `json:"key"`
+	A         []ref.Prim `json:"a"`
+	B         []ref.Prim `json:"b"`
+	C         []ref.Prim `json:"c"`
+	MinA      *int       `json:"minA,omitempty"`
+	MinB      *int       `json:"minB,omitempty"`
+	NegBounds bool       `json:"negBounds"`
 }
 
 func drawC12a(t *rapid.T) *c12aScenario {
